@@ -1662,6 +1662,10 @@ func callBin(n *node) {
 			var defType reflect.Type
 			if variadic >= 0 && i+rcvrOffset >= variadic {
 				defType = funcType.In(variadic)
+				if n.action != aCallSlice {
+					// An individual argument of the variadic parameter has its element type.
+					defType = defType.Elem()
+				}
 			} else {
 				defType = funcType.In(rcvrOffset + i)
 			}
